@@ -185,7 +185,7 @@ Obs(v) == IF v.t = "D" THEN [k |-> "crash"] ELSE Observable(v)
 CaseRec(dd, tabs, p, tw, e) ==
   LET dc == DocT(dd, p, e)
       m == MachT(tabs, p, tw, e)
-  IN [p |-> p, tw |-> tw, e |-> JoinS(TextOf(e)), doc |-> Obs(dc.r), mach |-> Obs(m), dev |-> dc.d,
+  IN [p |-> p, tw |-> tw, two |-> tw \/ MentionsFw(e), e |-> JoinS(TextOf(e)), doc |-> Obs(dc.r), mach |-> Obs(m), dev |-> dc.d,
       call |-> IF e.k = "F" THEN JoinS(Info[e.f].src) ELSE "-",
       \* machine as coded = declarative meaning wherever the manual is definite
       agree |-> (Definite(dc.r) /\ (~ExcludeKnown \/ dc.d \cap KnownDevs = {})) => m = dc.r]
